@@ -49,7 +49,7 @@ def gen(seed, tier):
         'classes': [r.choice(('Cell', 'Cell', 'Merge'))
                     for _ in range(ncell)],
         'sched': mvcc.sched_config(r),
-        'tick': 0.37, 'tier': tier,
+        'tick': r.choice((0.37, 0.37, 1e-7, 45.0)), 'tier': tier,
     }
 
 
